@@ -44,16 +44,20 @@ PatchTable == <<
        [op |-> "move", from |-> <<47,97,47,48>>, path |-> <<47,109>>] >>),                                \* 5 add /a/- {"k":[1,2]} ; move /a/0 -> /m
   P(<< [op |-> "test", path |-> <<47,97>>, value |-> N2],
        [op |-> "add", path |-> <<47,113>>, value |-> N1] >>),                                            \* 6 test /a 2 ; add /q 1
-  P(<< [op |-> "test", path |-> <<47>>, value |-> Obj(<<Mem(ca, Arr(<<N1, Null>>)), Mem(cb, Obj(<<>>))>>)] >>) >>  \* 7 test "/" ... : an empty
+  P(<< [op |-> "test", path |-> <<47>>, value |-> Obj(<<Mem(ca, Arr(<<N1, Null>>)), Mem(cb, Obj(<<>>))>>)] >>),  \* 7 test "/" ... : an empty
                                       \* reference token is outside C01's domain - its RESULT is not specified, purity still is
+  P(<< [op |-> "copy", from |-> <<47,97>>, path |-> <<47,100>>],
+       [op |-> "test", path |-> <<47,100>>, value |-> N2] >>) >>                                          \* 8 copy /a -> /d (8 bytes) ; test /d 2 (fails AFTER the copy)
 \* merge patches
 MergeTable == <<
   Obj(<<Mem(ca, Null), Mem(cc, Obj(<<Mem(cd, N1)>>))>>),              \* 1 {"a":null,"c":{"d":1}}
   Obj(<<Mem(cc, Obj(<<Mem(cd, Null), Mem(ce, N2)>>))>>),              \* 2 {"c":{"d":null,"e":2}}
   Arr(<<N1>>),                                                        \* 3 [1]
   Bad >>                                                              \* 4
+\* the option values are caller-owned too: ONE ApplyOptions value per id is shared by every call that names it
 Opt(k) == IF k = 1 THEN [neg |-> TRUE, limit |-> 0, allow |-> FALSE, ensure |-> FALSE, esc |-> TRUE]
-          ELSE [neg |-> FALSE, limit |-> 0, allow |-> TRUE, ensure |-> TRUE, esc |-> FALSE]
+          ELSE IF k = 2 THEN [neg |-> FALSE, limit |-> 0, allow |-> TRUE, ensure |-> TRUE, esc |-> FALSE]
+          ELSE [neg |-> TRUE, limit |-> 12, allow |-> FALSE, ensure |-> FALSE, esc |-> TRUE]      \* 3: a copy-size limit: 8 <= 12 < 16
 
 C2(api, a, b)    == [api |-> api, a |-> a, b |-> b, o |-> 1]
 C3(api, a, b, o) == [api |-> api, a |-> a, b |-> b, o |-> o]
@@ -61,6 +65,7 @@ C3(api, a, b, o) == [api |-> api, a |-> a, b |-> b, o |-> o]
 SmallCalls ==
      { C3("Apply", d, p, 1) : d \in {1, 2}, p \in {1, 2, 3} }
   \cup { C3("Apply", 1, 2, 2), C3("Apply", 4, 1, 1), C3("ApplyIndent", 1, 5, 1), C3("Apply", 1, 7, 1) }
+  \cup { C3("Apply", 1, 2, 3), C3("Apply", 1, 8, 3) }      \* under the limit: a copy that fits; a copy followed by a failing test
   \cup { C2("DecodePatch", 4, 0), C2("DecodePatch", 2, 0) }
   \cup { C2("MergePatch", 1, 1), C2("MergePatch", 1, 4), C2("MergePatch", 3, 2) }
   \cup { C2("MergeMergePatches", 1, 2), C2("CreateMergePatch", 1, 3), C2("CreateMergePatch", 1, 4) }
@@ -68,7 +73,7 @@ SmallCalls ==
 FullCalls == SmallCalls
   \cup { C3("Apply", d, p, o) : d \in {1, 2, 3, 5}, p \in {1, 2, 3, 5, 6}, o \in {1, 2} }
   \cup { C3("ApplyIndent", d, p, 1) : d \in {1, 2, 5}, p \in {1, 2} }
-  \cup { C2("DecodePatch", p, 0) : p \in 1..7 } \cup { C3("Apply", 2, 7, 1), C3("Apply", 5, 7, 2) }
+  \cup { C2("DecodePatch", p, 0) : p \in 1..8 } \cup { C3("Apply", 2, 7, 1), C3("Apply", 5, 7, 2) }
   \cup { C2("MergePatch", d, m) : d \in {1, 3, 4, 5}, m \in 1..4 }
   \cup { C2("MergeMergePatches", m, n) : m \in {1, 2}, n \in 1..4 }
   \cup { C2("CreateMergePatch", d, e) : d \in {1, 3, 5, 2}, e \in {1, 3, 5} }
